@@ -866,6 +866,24 @@ func rulePruneTogether(c *Ctx) {
 			return x == e && y == k || x == k && y == e
 		}) {
 			c.ok("OnPrune.anchor-slot", del.Pos(), "blockSlots[%s] set for the anchor is excluded from deletion", k)
+		} else if func() bool {
+			// the same exclusion written as an early `continue` (or any condition known to hold where the delete stands)
+			for _, pc := range pathCondsAt(parents, del) {
+				be, ok := ast.Unparen(pc.e).(*ast.BinaryExpr)
+				if !ok || (be.Op != token.NEQ && be.Op != token.EQL) {
+					continue
+				}
+				x, y := types.ExprString(be.X), types.ExprString(be.Y)
+				if !(x == e && y == k || x == k && y == e) {
+					continue
+				}
+				if (be.Op == token.NEQ) != pc.neg {
+					return true
+				}
+			}
+			return false
+		}() {
+			c.ok("OnPrune.anchor-slot", del.Pos(), "blockSlots[%s] set for the anchor is excluded from deletion (the delete is only reached for another root)", k)
 		} else {
 			c.bad("OnPrune.anchor-slot", del.Pos(), "blockSlots[%s] is re-pointed at the anchor slot and then delete(blockSlots, %s) runs for every pruned node without excluding %s: pruned slot nodes of the anchor's own root remove the anchor's entry", k, e, k)
 		}
